@@ -43,40 +43,61 @@ func init() {
 			return info.ObjectOf(l)
 		}
 		var B, additional types.Object
+		// `additional`: the slice the current parameter is appended to (most frequent append-to-self target)
+		cnt := map[types.Object]int{}
 		ast.Inspect(fd.Body, func(nd ast.Node) bool {
-			cc, ok := nd.(*ast.CaseClause)
-			if !ok || len(cc.List) != 1 || len(cc.Body) == 0 {
+			if o := isAppendTo(nd); o != nil {
+				cnt[o]++
+			}
+			return true
+		})
+		for o, k := range cnt {
+			if additional == nil || k > cnt[additional] || (k == cnt[additional] && o.Pos() < additional.Pos()) {
+				additional = o
+			}
+		}
+		// B: the boolean local that is switched on (assigned the constant true) inside a loop
+		var cands []types.Object
+		walkStack(fd.Body, func(nd ast.Node, stack []ast.Node) bool {
+			as, ok := nd.(*ast.AssignStmt)
+			if !ok || len(as.Lhs) != len(as.Rhs) {
 				return true
 			}
-			id, ok := unparen(cc.List[0]).(*ast.Ident)
-			if !ok {
-				return true
+			inLoop := false
+			for _, a := range stack {
+				switch a.(type) {
+				case *ast.ForStmt, *ast.RangeStmt:
+					inLoop = true
+				}
 			}
-			if o := isAppendTo(cc.Body[0]); o != nil {
-				if b, ok := info.ObjectOf(id).(*types.Var); ok && types.Identical(b.Type(), types.Typ[types.Bool]) {
-					B, additional = b, o
+			for i, l := range as.Lhs {
+				id, ok := unparen(l).(*ast.Ident)
+				if !ok || !inLoop {
+					continue
+				}
+				v, ok := info.ObjectOf(id).(*types.Var)
+				if !ok || !types.Identical(v.Type(), types.Typ[types.Bool]) {
+					continue
+				}
+				if tv := info.Types[as.Rhs[i]]; tv.Value != nil && tv.Value.ExactString() == "true" {
+					dup := false
+					for _, cnd := range cands {
+						if cnd == types.Object(v) {
+							dup = true
+						}
+					}
+					if !dup {
+						cands = append(cands, v)
+					}
 				}
 			}
 			return true
 		})
-		if B == nil {
-			ast.Inspect(fd.Body, func(nd ast.Node) bool {
-				ifs, ok := nd.(*ast.IfStmt)
-				if !ok || len(ifs.Body.List) == 0 {
-					return true
-				}
-				if id, ok := unparen(ifs.Cond).(*ast.Ident); ok {
-					if o := isAppendTo(ifs.Body.List[0]); o != nil {
-						if b, ok := info.ObjectOf(id).(*types.Var); ok && types.Identical(b.Type(), types.Typ[types.Bool]) {
-							B, additional = b, o
-						}
-					}
-				}
-				return true
-			})
+		if len(cands) == 1 && additional != nil {
+			B = cands[0]
 		}
 		if B == nil {
-			c.Lost("R24e", "ParseFlags:flags-off-boolean", "no `case <bool>:`/`if <bool>` arm that appends the parameter to a slice found in ParseFlags")
+			c.Lost("R24e", "ParseFlags:flags-off-boolean", "ParseFlags no longer has exactly one boolean local that is switched on inside the parameter loop (%d found) and a slice the parameters are appended to", len(cands))
 			return
 		}
 		g := cfg.New(fd.Body, func(call *ast.CallExpr) bool { return true })
